@@ -134,7 +134,6 @@ def run_case(case, st=None):
         st.setdefault("_count", {})["generator_invalid_query"] = 1; return None
     if not case.get("no_carve"):
         # dynamic input predicates (decided by the reference run on the input alone, before rdflib is consulted)
-        if R.STATS["error_inside_IN_list"]: carve.append("T7-error-inside-IN-list")
         if R.STATS["str_of_bnode"]: carve.append("C04-T8-str-of-bnode")
         if R.STATS["float_arithmetic"]: carve.append("C04-T9-float-arithmetic")
         for c in carve: st.setdefault("_known", {})[c] = 1
